@@ -19,6 +19,9 @@ skew2ax(LR) = L,  skew2ax(I) = I, ...; the weights N[...] keep P, the derivative
 weights is zero).  The analysis is flow-insensitive (a name's type is the join of its bindings, `+=` included), which is exact for the
 accumulate-in-a-loop idiom of the kernels.
 
+Value-dependent choices (`if p_node[0] < 0: p_node = -p_node`, `-1.0 if p_node[0] < 0 else 1.0`) keep a type only if the test reads
+invariant quantities; a choice decided by a component of a quaternion / director / position gives X (the branch taken changes with the observer).
+
 A strain the kernel returns must have type I, the rotation L, the position P.  A determinate other type is a violation: the strain rotates
 (or shears) with the observer.  Unknown types give no verdict."""
 from __future__ import annotations
@@ -73,6 +76,17 @@ class Typer:
                 self.bind.setdefault(n.target.id, []).append(("?", n.value))
         self.busy = set()
         self.memo = {}
+        # enclosing `if` tests of every binding (value-dependent choices must be decided by INVARIANT quantities)
+        self.guards = {}
+        for n in ast.walk(fn):
+            if isinstance(n, (ast.Assign, ast.AugAssign)):
+                tests, up = [], getattr(n, "_parent", None)
+                while up is not None and up is not fn:
+                    if isinstance(up, ast.If):
+                        tests.append(up.test)
+                    up = getattr(up, "_parent", None)
+                if tests:
+                    self.guards[id(n.value)] = tests
 
     # --------------------------------------------------------------------------------------------------------------------------------
     def name(self, nm):
@@ -92,12 +106,37 @@ class Typer:
             t = self.ev(v)
             if kind == "row":
                 t = self.row(t)
+            if t is not None and any(self.noninvariant(g) for g in self.guards.get(id(v), [])):
+                t = (t[0], "X", None)       # which value is bound is decided by a quantity that changes under the rigid motion
             cur = join(cur, t)
             if cur is None:
                 break
         self.busy.discard(nm)
         self.memo[nm] = cur
         return cur
+
+    def noninvariant(self, test):
+        """does the test read a quantity with a determinate, non-invariant transformation type (a component of a quaternion, of a director,
+        of a position)?  Then the branch taken is not the same before and after a superposed rigid motion."""
+        for w in ast.walk(test):
+            if isinstance(w, ast.Name):
+                if w.id in self.busy:
+                    # the tested name is the one being (re)bound under this test: judge it by its unguarded bindings
+                    for kind, v in self.bind.get(w.id, []):
+                        if id(v) in self.guards or kind == "?":
+                            continue
+                        t = self.ev(v)
+                        if kind == "row":
+                            t = self.row(t)
+                        if t is not None and t[1] not in ("I", "Z"):
+                            return True
+                    continue
+                t = self.ev(w)
+                if t is not None and t[1] not in ("I", "Z"):
+                    return True
+            elif isinstance(w, ast.Subscript) and isinstance(w.value, ast.Name) and w.value.id == "qe":
+                return True
+        return False
 
     @staticmethod
     def row(t):
@@ -128,6 +167,14 @@ class Typer:
             return self.name(e.id)
         if isinstance(e, ast.UnaryOp) and isinstance(e.op, (ast.USub, ast.UAdd)):
             return self.ev(e.operand)
+        if isinstance(e, ast.IfExp):
+            a, b = self.ev(e.body), self.ev(e.orelse)
+            if a is None or b is None:
+                return None
+            j = join(a, b)
+            if j is not None and self.noninvariant(e.test):
+                return (j[0], "X", None)
+            return j
         if isinstance(e, ast.Attribute):
             if e.attr == "T":
                 t = self.ev(e.value)
@@ -191,6 +238,8 @@ class Typer:
                     return (r, L[1], None)
                 return (r, "X", None)
             if isinstance(e.op, ast.Mult):
+                if "X" in (L[1], R[1]):
+                    return (max((x for x in (L[0], R[0]) if x is not None), default=None), "X", None)
                 for a, b in ((L, R), (R, L)):
                     if a[0] == 0 and a[1] == "I":
                         if b[1] == "P":
@@ -209,6 +258,8 @@ class Typer:
                 (r1, t1, _), (r2, t2, _) = L, R
                 if "Z" in (t1, t2):
                     return (None, "Z", None)
+                if "X" in (t1, t2) and (r1 is None or r2 is None):
+                    return (None, "X", None)
                 if r1 is None or r2 is None or r1 == 0 or r2 == 0:
                     return None
                 rank = {(2, 2): 2, (2, 1): 1, (1, 2): 1, (1, 1): 0}[(r1, r2)]
@@ -240,6 +291,8 @@ class Typer:
                 sh = e.args[0] if e.args else None
                 rank = 1 if isinstance(sh, (ast.Constant, ast.Name, ast.Attribute)) else (len(sh.elts) if isinstance(sh, ast.Tuple) else None)
                 return (rank, "Z", None)
+            if nm in ("Exp_SO3_quat", "T_SO3_quat", "Exp_SO3_quat_P", "T_SO3_quat_P") and args and args[0] is not None and args[0][1] == "X":
+                return (2, "X", None)
             if nm == "Exp_SO3_quat" and args:
                 return (2, "L", None) if args[0] is not None and args[0][1] == "Q" else None
             if nm == "T_SO3_quat" and args:
